@@ -120,7 +120,7 @@ theorem toExample_ok (o : NumOracle F) (df : DF F) (add : Bool) (c0 : Col) (cs :
   have hv0 : c0.dom = .void → c0.states = [] := hv c0 (by simp)
   by_cases hd : c0.dom = .void
   · refine ⟨c0 :: cs', ?_, ?_, ?_⟩
-    · simp only [toExample, hcols, hd, if_true, hgo, bind, Except.bind, pure, Except.pure, outVal]
+    · simp only [toExample, outputOf, hcols, hd, if_true, hgo, bind, Except.bind, pure, Except.pure, outVal]
     · simp only [skel, List.map, hcols] at *; rw [hsk]
     · intro c hc; simp at hc
       rcases hc with rfl | hc
@@ -128,7 +128,7 @@ theorem toExample_ok (o : NumOracle F) (df : DF F) (add : Bool) (c0 : Col) (cs :
       · exact hvc c hc
   · by_cases hn : isNumber o v0 = false
     · refine ⟨addState add c0 (trim v0) :: cs', ?_, ?_, ?_⟩
-      · simp only [toExample, hcols, hd, hn, if_true, if_false, hgo, bind, Except.bind, pure, Except.pure,
+      · simp only [toExample, outputOf, hcols, hd, hn, if_true, if_false, hgo, bind, Except.bind, pure, Except.pure,
           outVal, Bool.not_false]
       · simp only [skel, List.map, hcols] at *; rw [hsk, addState_skel]
       · intro c hc; simp at hc
@@ -142,7 +142,7 @@ theorem toExample_ok (o : NumOracle F) (df : DF F) (add : Bool) (c0 : Col) (cs :
         · simp [h] at hn'
         · exact h
       refine ⟨addState add c0 (trim v0) :: cs', ?_, ?_, ?_⟩
-      · simp only [toExample, hcols, hd, hn', if_false, hgo, bind, Except.bind, pure, Except.pure,
+      · simp only [toExample, outputOf, hcols, hd, hn', if_false, hgo, bind, Except.bind, pure, Except.pure,
           outVal, Bool.not_true, convert_ok o c0.dom v0 hc, Bool.false_eq_true, Bool.true_eq_false]
       · simp only [skel, List.map, hcols] at *; rw [hsk, addState_skel]
       · intro c hc; simp at hc
